@@ -137,6 +137,32 @@ Example C02_ex_ok_run :
   match st_trace s with [EvPrint p] => pieces_str p = Some (s_ "[2 3] 2" ++ [10%N]) | _ => False end.
 Proof. vm_compute. split; reflexivity. Qed.
 
+(*  m := {a:1 b:2} / m.c = 3 / for k := range m / print k m[k] / end / del m "a" / print (has m "a") (len m)  *)
+Definition n3 : expr := ENum (float_of_bits 4613937818241073152).
+Definition ex_map : program :=
+  {| p_funcs := []; p_handlers := [];
+     p_stmts :=
+       [SDecl (s_ "m") (TMap TNum) (EMap (TMap TNum) [(s_ "a", n1); (s_ "b", n2)]);
+        SAssign (EDot TNum (v_ "m" (TMap TNum)) (s_ "c")) n3;
+        SFor (Some (s_ "k")) TStr (RExpr (v_ "m" (TMap TNum)))
+          [SCallStmt (s_ "print")
+             [EAny (v_ "k" TStr) TStr; EAny (EIndex TNum (v_ "m" (TMap TNum)) (v_ "k" TStr)) TNum]];
+        SCallStmt (s_ "del") [v_ "m" (TMap TNum); EStr (s_ "a")];
+        SCallStmt (s_ "print")
+          [EAny (EGroup (ECall (s_ "has") TBool [v_ "m" (TMap TNum); EStr (s_ "a")])) TBool;
+           EAny (EGroup (ECall (s_ "len") TNum [EAny (v_ "m" (TMap TNum)) (TMap TNum)])) TNum]] |}.
+
+Example C02_ex_map_hyps : wt_program ex_map = true /\ s1_program ex_map = true.
+Proof. vm_compute. split; reflexivity. Qed.
+
+Example C02_ex_map_run :
+  let '(o, s) := run_program 300 ex_map s0_ in
+  o = ODone /\
+  match st_trace s with
+  | EvPrint p :: _ => pieces_str p = Some (s_ "false 2" ++ [10%N])
+  | _ => False end.
+Proof. vm_compute. split; reflexivity. Qed.
+
 (* ---------- the full statement is false ---------- *)
 (*  a:[]any / a = [1] / a[0] = a / print a  : accepted by the Go parser and by
     wt; String() recurses for ever on the value that contains itself (the Go
